@@ -1,6 +1,6 @@
 // C09 — if, for and set have their defined control-flow meaning.
 //
-// Bounded-exhaustive enumeration of eight families of programs, each rendered on a fresh engine of
+// Bounded-exhaustive enumeration of nine families of programs, each rendered on a fresh engine of
 // the real implementation and compared with a small reference interpreter transcribed from the
 // property statement:
 //
@@ -29,6 +29,10 @@
 //	   variables, caller variables of a macro, macro parameters or include-with values; probed by
 //	   if / is null / is defined / print / a copying set after every statement and in later
 //	   iterations                                                            -> fam_h.go
+//
+//	I  one for loop over lists whose Go element type is an interface but which are not []interface{}
+//	   (named list type, slice of a named interface, [N]interface{}, []fmt.Stringer, []error), in the
+//	   placements of family B and as elements of an outer list; also as if conditions  -> fam_i.go
 //
 // Family C is printed a second time with loop.* read only at the end of every loop-context body
 // (keys CL/…, and CD/… with the sets in the do form)                       -> fam_c.go
@@ -101,26 +105,28 @@ func main() {
 	vlib.Main(vlib.Spec{
 		ID:    "C09",
 		Level: "exploration",
-		Rule: "every program of eight generated families inside the stated bounds is rendered on a fresh engine and compared with a reference interpreter " +
+		Rule: "every program of nine generated families inside the stated bounds is rendered on a fresh engine and compared with a reference interpreter " +
 			"written from the property statement: (A) if/elseif/else chains over every value class as context value and as literal; (B) one for loop " +
 			"(value or key,value header, with/without else, top level / inside an outer loop / over a variable assigned by set) over every list, string " +
 			"and range of the bound, printing index, index0, revindex, revindex0, first, last, length, key and value at every position; (C) every statement " +
 			"tree over {set, if, if/else, if/elseif[/else], for, for/else} up to the size bound with a full state probe at the start of every body and after every " +
 			"statement, and the same trees of the smaller layers once more with loop.* printed only after the last statement of every body inside a loop (sets as set and as do name = expr), so that sets, ifs and inner loops precede the reads; (D) every chain of assignments up to the length bound as `set` and as `do name = expr`; (E) a variable first assigned below every chain of " +
 			"taken if / else / elseif branches, loop bodies and for-else branches up to the depth bound, read after each enclosing construct and in later iterations; " +
-				"(F) re-entrant loops: a loop body that reaches its own for node again (include of the same template, include ... only, recursive macro via _self, a registered function that renders the template again; directly or through a second identical template/macro) " +
-				"over per-level lists of every length with a depth guard and over every tree of nested lists of the bound, printing all seven counters, key and value before and after the inner activation, three renders per case on one engine; " +
-				"(G) body layouts of one loop: every list of tokens up to the bound over {set acc = acc ~ v, do cnt = cnt + 1, read of loop.*, if 1 {...}, if 0 else {...}} x the place of the read in its statement " +
-				"(all seven counters, one counter, if condition, ?:, set value, inner loop header, include-with value, macro argument) x sequence x placement, the set variables printed after endfor; " +
-				"(H) assignments under an outer definition of the same name: every chain of assignments up to the length bound over {null, a null context value, an undefined name, none, 0, '', false, [], 'w', x = y, y = x, y = null, y = 'v'} as set and as do, and (HL) one loop with x as value / key variable over every list of the bound with null elements and `y = x` in its body, " +
-				"x where the body stands (template, block, macro body, macro body after caller sets, macro parameters, include, include only, include with) x (H) plain / taken if / taken else / second pass of a three-pass loop x what else defines x, y, z (nothing, engine globals, context variables, both) x how the variable is observed (if, is null, is defined, print, copy by set, all), every determined variable probed before the chain, after every statement, after the enclosing construct and in every later iteration. Non-trivial = A: the chain has at least two " +
-			"alternatives (elseif or else); B: the sequence has at least two elements, or is empty with an else branch; C: the reference execution enters a " +
+			"(F) re-entrant loops: a loop body that reaches its own for node again (include of the same template, include ... only, recursive macro via _self, a registered function that renders the template again; directly or through a second identical template/macro) " +
+			"over per-level lists of every length with a depth guard and over every tree of nested lists of the bound, printing all seven counters, key and value before and after the inner activation, three renders per case on one engine; " +
+			"(G) body layouts of one loop: every list of tokens up to the bound over {set acc = acc ~ v, do cnt = cnt + 1, read of loop.*, if 1 {...}, if 0 else {...}} x the place of the read in its statement " +
+			"(all seven counters, one counter, if condition, ?:, set value, inner loop header, include-with value, macro argument) x sequence x placement, the set variables printed after endfor; " +
+			"(H) assignments under an outer definition of the same name: every chain of assignments up to the length bound over {null, a null context value, an undefined name, none, 0, '', false, [], 'w', x = y, y = x, y = null, y = 'v'} as set and as do, and (HL) one loop with x as value / key variable over every list of the bound with null elements and `y = x` in its body, " +
+			"x where the body stands (template, block, macro body, macro body after caller sets, macro parameters, include, include only, include with) x (H) plain / taken if / taken else / second pass of a three-pass loop x what else defines x, y, z (nothing, engine globals, context variables, both) x how the variable is observed (if, is null, is defined, print, copy by set, all), every determined variable probed before the chain, after every statement, after the enclosing construct and in every later iteration; " +
+			"(I) one for loop over lists carried by Go slices / arrays whose element type is an interface but which are not []interface{} (a named list type, a slice of a named empty interface, [N]interface{}, []fmt.Stringer, []error, nil slices of these; every length of the bound) in the placements of (B) and as the elements of an outer list walked by an outer loop, all seven counters, key and value at every position, else exactly when empty, and the same lists as if conditions. " +
+			"Non-trivial = A: the chain has at least two " +
+			"alternatives (elseif or else); B and I: the sequence has at least two elements, or is empty with an else branch (I as an element of an outer list / as an if condition: always); C: the reference execution enters a " +
 			"loop body or selects among at least two branches; D: a later assignment or print reads an earlier assignment; E: always (every read follows the assignment across a construct boundary); " +
-				"F: a loop body is entered while an iteration of a loop of an outer level is still being rendered; G: the body has at least one read of loop.* and at least one set/do; H/HL: a name the program assigns is also defined outside the body (global, context variable, caller set, macro parameter, include-with value)",
+			"F: a loop body is entered while an iteration of a loop of an outer level is still being rendered; G: the body has at least one read of loop.* and at least one set/do; H/HL: a name the program assigns is also defined outside the body (global, context variable, caller set, macro parameter, include-with value)",
 		Assumptions: []string{
 			"bounds: see coverage.bounds; programs larger than the size bound, lists longer than the length bound and ranges outside the grid are not explored",
 			"not demanded (statement silent): loop.* and loop variables after endfor and inside a for-else branch; range() whose step sign contradicts end-start, one-argument range; " +
-				"undefined variables as conditions; maps as sequences (except the empty map, which has nothing to iterate); pointers and NaN as conditions; combining characters / invalid UTF-8 in strings",
+				"undefined variables as conditions; maps as sequences (except the empty map, which has nothing to iterate); pointers and NaN as conditions; pointers to slices / arrays as sequences; combining characters / invalid UTF-8 in strings",
 			"printing of integers and strings, the ~ operator on them, + on integers and the ?: used by the family-C probe are trusted (property C08)",
 			"family F trusts include ... with {...} [only], macro parameters, _self.macro(...) calls and function calls to hand the stated values to the next level (properties about includes/macros/functions); integer d + 1 and d < N (C08); family G trusts the same for its include-with / macro-argument read forms and range(i, n) with i <= n for its inner-loop-header form",
 			"a `do name = expr` that the parser rejects is a don't-care; one that is accepted must assign like set",
@@ -147,7 +153,7 @@ func main() {
 			for _, fam := range []struct {
 				id  string
 				run func(*vlib.T)
-			}{{"A", runA}, {"B", runB}, {"G", runG}, {"D", runD}, {"E", runE}, {"H", runH}, {"HL", runHL}, {"F", runF}, {"CL", runCLate}, {"C", runC}} {
+			}{{"A", runA}, {"B", runB}, {"I", runI}, {"G", runG}, {"D", runD}, {"E", runE}, {"H", runH}, {"HL", runHL}, {"F", runF}, {"CL", runCLate}, {"C", runC}} {
 				if on(fam.id) {
 					fam.run(t)
 				}
@@ -167,6 +173,7 @@ func boundsDoc(tier string) map[string]interface{} {
 		"B": bBoundsDoc(th),
 		"C": cBoundsDoc(th) + " Plus the " + cLateBoundsDoc(th) + ".",
 		"G": gBoundsDoc(th),
+		"I": iBoundsDoc(th),
 		"E": fmt.Sprintf("every chain of 1..%d enclosing constructs from {if (taken), if/else (else taken), if/elseif (elseif taken), for over 3 elements, for over nothing with else} around the first assignment of a new variable, which is defined nowhere else or is also an engine global", eMaxDepth(th)),
 		"F": fBoundsDoc(th),
 		"H": hBoundsDoc(th),
